@@ -10,6 +10,7 @@ GROUPS = {
     'leaf': (['leaf_interleave'], 900, False, None),
     'strs': (['strs_parse_address_hex', 'strs_parse_address_dec', 'strs_parse_address_unicode'], 1800, False, 'ASCII tokens of at most 6 bytes (value); arbitrary UTF-8 tokens of at most 5 bytes (totality)'),
     'irq': (['irq_dispatch'], 1800, False, None),
+    'joypad': (['joypad_twin'], 900, False, None),
     'objline': (['leaf_object_line', 'leaf_object_limit'], 2400, False, 'one scan line; A: 3 symbolic OAM entries with concrete tiles (others off-line); B: 11 entries on/off with symbolic X sharing one opaque tile'),
     'cmdline': (['strs_parse_command_total'], 3600, False, 'UTF-8 lines of at most 4 bytes'),
 }
@@ -19,6 +20,7 @@ REPO_FILES = {
     'header': ['src/cart.rs'],
     'leaf': ['src/devices/video/tile.rs'],
     'strs': ['src/debug/command.rs'],
+    'joypad': ['src/devices/joypad.rs', 'src/devices/interrupts.rs'],
     'objline': ['src/devices/video/mod.rs', 'src/devices/video/tile.rs'],
     'cmdline': ['src/debug/command.rs'],
     'irq': ['src/emulator.rs', 'src/devices/io.rs', 'src/devices/interrupts.rs', 'src/cpu.rs'],
